@@ -78,14 +78,17 @@ class Run:
 
     # ---------------------------------------------------------------- Go
     def gobuild(self, name, race=False, tags="verif"):
-        key = (name, race)
+        key = (name, race, tags)
         if key in self.built:
             return self.built[key]
-        out = os.path.join(self.bin, name + ("-race" if race else ""))
+        out = os.path.join(self.bin, name + ("-race" if race else "") + ("-" + tags.replace(" ", "-") if tags != "verif" else ""))
         cmd = ["go", "build", "-tags", tags, "-o", out]
         if os.environ.get("VERIF_COVER"):
             # development aid: statement coverage of /repo by the drivers (run with GOCOVERDIR set; see bin/coverage)
-            cmd += ["-cover", "-coverpkg=github.com/vx-labs/wasp/v4/..."]
+            m = "github.com/vx-labs/wasp/v4/"
+            cmd += ["-cover", "-coverpkg=" + ",".join(m + x for x in (
+                "wasp", "wasp/ack", "wasp/auth", "wasp/distributed", "wasp/expiration", "wasp/messages", "wasp/sessions",
+                "subscriptions", "topics", "crdt", "format", "rpc"))]
         if race:
             cmd.append("-race")
         cmd.append("./cmd/" + name)
